@@ -175,6 +175,9 @@ def value_for(r, ref, req, long_strings=0.0):
         if cnt is None or cnt == 1:
             return r.random() < 0.5
         extra = r.choice((0, 0, 0, 32))
+        if r.random() < 0.15:
+            # truth values given as numbers: any non-zero number sets the bit
+            return [r.choice((0, 0, 1, 1, 2, 255, True, False)) for _ in range(cnt + extra)]
         return [r.random() < 0.5 for _ in range(cnt + extra)]
     if a["bitmember"] is not None or req.get("bit") is not None:
         return r.random() < 0.5
@@ -200,10 +203,10 @@ def value_for(r, ref, req, long_strings=0.0):
 
 
 INVALID_KINDS_R = ("unknown_tag", "unknown_member", "index_oob", "count_oob", "count_absurd", "index_malformed",
-                   "not_a_tag", "bit_oob", "index_huge")
+                   "not_a_tag", "bit_oob", "index_huge", "member_index_bad")
 INVALID_KINDS_W = ("unknown_tag", "unknown_member", "index_oob", "count_oob", "unencodable", "too_short",
                    "misaligned_bool", "count_absurd", "index_malformed", "not_a_tag", "missing_member", "bit_oob",
-                   "index_huge", "unencodable_str")
+                   "index_huge", "unencodable_str", "member_index_bad")
 
 
 def gen_invalid(r, ref, for_write):
@@ -298,6 +301,19 @@ def gen_invalid(r, ref, for_write):
             base = "".join(chr(r.randrange(32, 127)) for _ in range(r.randint(0, max(0, cap - 1))))
             k = r.randint(0, len(base))
             return pre + t["name"], base[:k] + bad + base[k:], kind
+        if kind == "member_index_bad":
+            # the malformed / impossible index sits in a later bracket group: tag[1].member[x]
+            if t["type"] in ATOMIC_BY_NAME or ref.types[t["type"]].get("string_cap") is not None:
+                continue
+            ms = [m for m in ref.types[t["type"]]["members"] if not m["hidden"] and m["name"] and m.get("array")
+                  and m["type"] != "DWORD"]
+            if not ms:
+                continue
+            m = r.choice(ms)
+            bad = r.choice(("x", "-1", "", "1.5", str(2**32), str(m["array"] + r.choice((0, 1, 100)))))
+            idx = "[" + ",".join(str(x) for x in _rand_idx(r, dims)) + "]" if dims else ""
+            v = gen_value(r, ref, m["type"]) if for_write and m["type"] in ATOMIC_BY_NAME else (1 if for_write else None)
+            return pre + t["name"] + idx + "." + m["name"] + "[" + bad + "]", v, kind
         if kind == "missing_member":
             # a structure value that lacks one of the visible non-BOOL members: there is nothing to write for it
             if t["type"] in ATOMIC_BY_NAME or ref.types[t["type"]].get("string_cap") is not None or dims:
